@@ -160,11 +160,16 @@ func (e *Engine) VerifyFunc(fn *ssa.Function, fc *FuncContract) (res *FuncResult
 	}
 	// covers: antecedents of implications must be reachable on some return
 	if fc != nil {
+		seenCover := map[string]bool{}
 		for _, en := range fc.Ensures {
 			b, ok := en.E.(*EBin)
 			if !ok || b.Op != "==>" {
 				continue
 			}
+			if seenCover[b.L.exprString()] {
+				continue
+			}
+			seenCover[b.L.exprString()] = true
 			var alts []string
 			for _, r := range f.rets {
 				env := f.funcEnv(r.st, f.entry)
